@@ -676,6 +676,22 @@ def calculate_closest_points(Y, P, Q, n_points):
         b = u * Q[0] + v * Q[1]
     elif n_points == 3:
         u, v, w = get_barycentric_coordinates_plane(Y[0], Y[1], Y[2])
+        if u < 0.0 or v < 0.0 or w < 0.0:
+            # The projection of the origin on the plane lies (slightly)
+            # outside of the triangle. Negative weights would extrapolate
+            # P and Q beyond the shapes, so use the closest edge instead.
+            if u <= v and u <= w:
+                v, w = get_barycentric_coordinates_line(Y[1], Y[2])
+                w = min(max(w, 0.0), 1.0)
+                u, v = 0.0, 1.0 - w
+            elif v <= w:
+                u, w = get_barycentric_coordinates_line(Y[0], Y[2])
+                w = min(max(w, 0.0), 1.0)
+                u, v = 1.0 - w, 0.0
+            else:
+                u, v = get_barycentric_coordinates_line(Y[0], Y[1])
+                v = min(max(v, 0.0), 1.0)
+                u, w = 1.0 - v, 0.0
         a = u * P[0] + v * P[1] + w * P[2]
         b = u * Q[0] + v * Q[1] + w * Q[2]
     elif n_points == 4:  # intersection
